@@ -13,11 +13,12 @@ From OsmtV.Print Require Import Gen_Tokens Reader ReaderProofs LexLemmas Quote Q
 Import ListNotations.
 Open Scope string_scope.
 
-(* --- the working tree still is the pinned variant (breaks, as intended, when a repair is applied: then the theorems
-       about [pinned] below describe the past and the ones about [repaired] the present) --- *)
-Theorem model_is_pinned_code : faithful = pinned.
+(* --- which variant the working tree is: the pinned commit plus the repairs applied so far (Quote.current).  Breaks, as
+       intended, when a further repair is applied: update Quote.current (one flag per repair); the theorems about
+       [pinned] describe the pinned commit and stay true, the ones about [repaired] describe the tree with all repairs --- *)
+Theorem model_is_current_code : faithful = current.
 Proof. reflexivity. Qed.
-Print Assumptions model_is_pinned_code.
+Print Assumptions model_is_current_code.
 
 (* --- the reader accepts exactly the reference spelling of every legal name --- *)
 Theorem quote_symbol_roundtrip : forall cfg s, cfg_ok cfg -> legal_symbol s ->
